@@ -419,8 +419,42 @@ func scenarios() []scen {
 				}
 				o.add("max=%d", maxAct)
 			}},
+			scen{fmt.Sprintf("limitreduce/p%d", p), []string{"C14"}, p, func(sess *exec.Session, o *outcome) {
+				par(func() { runWant(sess, o, "R", "0:3,1:3,2:3", fSlowReduce, 0) },
+					func() { runWant(sess, o, "X", "1:0", fSlow1, 1, true) })
+				if maxAct > p {
+					vsched.Fail("%d tasks ran user code (combiner) at once with Parallelism(%d)", maxAct, p)
+				}
+				if exclBad != "" {
+					vsched.Fail("%s", exclBad)
+				}
+				o.add("max=%d", maxAct)
+			}},
 		)
 	}
+	// C19: one of two concurrent runs sharing a lost task is cancelled; the other must finish
+	out = append(out,
+		scen{"cancel2/p2", []string{"C19"}, 2, func(sess *exec.Session, o *outcome) {
+			r := runWant(sess, o, "R", srcRows(0), fSrc, 0, 1)
+			r.Discard(context.Background())
+			ctxA, cancelA := context.WithCancel(context.Background())
+			par(func() {
+				res, err := sess.Run(ctxA, fMapOf, r, 10)
+				switch {
+				case err != nil:
+					o.add("A=err")
+				default:
+					rows, serr := scan(res)
+					if serr == nil && sorted(rows) != mapRows(0, 10) {
+						vsched.Fail("A: rows %q, want %q", sorted(rows), mapRows(0, 10))
+					}
+					o.add("A=ok")
+				}
+			},
+				func() { runWant(sess, o, "B", mapRows(0, 100), fMapOf, r, 100) },
+				func() { cancelA(); o.add("C") })
+		}},
+	)
 	return out
 }
 
@@ -455,6 +489,29 @@ var fSlow1 = bigslice.Func(func(tag int, exclusive bool) bigslice.Slice {
 		})
 		return k, z
 	}, prags...)
+})
+
+// fSlowReduce: 3 producer shards, every key in every shard, so that each of the 3
+// reduce tasks runs the user's combiner while it gathers its input; the combiner counts
+// how many tasks are inside user code at once (local mode: at most Parallelism).
+var fSlowReduce = bigslice.Func(func(tag int) bigslice.Slice {
+	s := bigslice.Const(3, []int{0, 1, 2, 0, 1, 2, 0, 1, 2}, []int{1, 1, 1, 1, 1, 1, 1, 1, 1})
+	return bigslice.Reduce(s, func(a, b int) int {
+		vsched.Monitor(monKey, func() {
+			active++
+			if active > maxAct {
+				maxAct = active
+			}
+			for t, e := range excl {
+				if e && inside[t] {
+					exclBad = fmt.Sprintf("a reduce task's combiner ran while exclusive task %d was running", t)
+				}
+			}
+		})
+		vsched.Yield("combiner")
+		vsched.Monitor(monKey, func() { active-- })
+		return a + b
+	})
 })
 
 func mkScenario(s scen) *mc.Scenario {
@@ -495,7 +552,7 @@ func mkScenario(s scen) *mc.Scenario {
 			return "task-execution-count"
 		case strings.Contains(l, "scan"):
 			return "scan-" + strings.Fields(l[strings.Index(l, "scan"):])[1]
-		case strings.Contains(l, "ran at once"):
+		case strings.Contains(l, "ran at once"), strings.Contains(l, "at once with Parallelism"):
 			return "parallelism-exceeded"
 		case strings.Contains(l, "exclusive"):
 			return "exclusive-not-alone"
